@@ -335,6 +335,8 @@ def check_C12(ctx, rep):
     roles = feedback.Roles(ctx)
     rep.extra['template_entry_points'] = sorted({'{} -> {}'.format(b, f.name) for b, f, _, _ in roles.entries})
     feedback.check_k4_roles(ctx, rep, roles)
+    for f in fs:
+        feedback.check_k8(ctx, rep, f, roles)
     feedback.check_compare_languages(ctx, rep, ctx.prog.func('language_generator.compare_languages'))
     feedback.check_k7(ctx, rep, ctx.prog.func('notebook.check_max_states'))
     if closed.check_checker_targets(ctx, rep, ctx.prog.func('notebook_nfa2dfa.check_nfa_to_dfa_answer')) < 1:
